@@ -71,7 +71,8 @@ def _hash_task(
     func = _wrap_hash_file(callback, hash_file)
     _meta, hash_info = func(path, fs, hash_name, **kwargs)
     assert hash_info.value
-    if path.endswith(".dir"):
+    # NOTE: a hash state row of a directory object already carries the suffix
+    if path.endswith(".dir") and not hash_info.value.endswith(".dir"):
         hash_info.value += ".dir"
     return path, hash_info.value
 
